@@ -33,6 +33,7 @@ type Stmt struct {
 	B    uint32 `json:"b,omitempty"`
 	Off  uint32 `json:"off,omitempty"`
 	V    uint64 `json:"v,omitempty"`
+	V2   uint64 `json:"v2,omitempty"` // cmpxchg: the expected operand (V is the replacement)
 	D    uint32 `json:"d,omitempty"`
 	S    uint32 `json:"s,omitempty"`
 	N    uint32 `json:"n,omitempty"`
@@ -59,6 +60,14 @@ type opInfo struct {
 	enc    []byte // opcode bytes (without memarg)
 	align  uint32
 	i64    bool // value type on the stack is i64 (else i32); v128 handled separately
+	// catalogue entries (catalogue.go)
+	kind  string
+	res   byte
+	sext  bool
+	rop   string
+	vk    string
+	lanew int
+	lane  int
 }
 
 var ops = map[string]opInfo{
@@ -108,6 +117,10 @@ func emit(ss []Stmt) []byte {
 				out = append(out, i32c(s.B)...)
 			default:
 				hx.Fatal("bad src %q", s.Src)
+			}
+			if oi.kind != "" {
+				out = append(out, emitCat(s, oi)...)
+				continue
 			}
 			memarg := wb.Cat(oi.enc, leb128.EncodeUint32(oi.align), leb128.EncodeUint32(s.Off))
 			switch {
@@ -324,6 +337,10 @@ func (r *ref) exec(ss []Stmt) int {
 			var buf [16]byte
 			for k := 0; k < oi.w; k++ {
 				buf[k] = r.byteAt(ea + uint64(k))
+			}
+			if oi.kind != "" {
+				r.refCat(s, oi, ea, buf[:])
+				continue
 			}
 			old := binary.LittleEndian.Uint64(buf[:8])
 			switch {
